@@ -113,6 +113,68 @@ pub fn spaces(tier: Tier) -> Vec<Space<'static>> {
             }
         }));
     }
+    // "Equality of scalars is the equality that compare reports": for every pair of scalar documents and
+    // every text/binary configuration, contains(a, b) is true exactly when compare(a, b) says Equal
+    {
+        let mut sc: Vec<RVal> = univ::num_variants(false);
+        for v in [128i64, 255, 256, 65535, 65536, 2147483648, 4294967295, 4294967296, 9007199254740993] {
+            sc.push(RVal::Num(refmodel::RNum::I(v)));
+            sc.push(RVal::u(v as u64));
+            sc.push(RVal::f(v as f64));
+            sc.push(RVal::i(-v));
+        }
+        sc.extend([RVal::Null, RVal::Bool(true), RVal::Bool(false), RVal::s(""), RVal::s("a"), RVal::s("A"), RVal::s("k"), RVal::s("null"), RVal::s("1"), RVal::s("\u{e9}")]);
+        let forms: std::sync::Arc<Vec<(RVal, Vec<u8>, Option<String>)>> = std::sync::Arc::new(sc.into_iter().map(|d| { let b = enc(&d); let t = if d.all_finite() { Some(refmodel::text::print(&d)) } else { None }; (d, b, t) }).collect());
+        sp.push(Space::new("scalar pairs: contains is true exactly when compare reports Equal (four text/binary configurations)", forms.len() as u64, move |i, acc| {
+            let (a, ab, at) = &forms[i as usize];
+            for (b, bb, bt) in forms.iter() {
+                let mut cfgs: Vec<(&str, &[u8], &[u8])> = vec![("binary,binary", &ab[..], &bb[..])];
+                if let Some(tb) = bt {
+                    cfgs.push(("binary,text", &ab[..], tb.as_bytes()));
+                }
+                if let Some(ta) = at {
+                    cfgs.push(("text,binary", ta.as_bytes(), &bb[..]));
+                    if let Some(tb) = bt {
+                        cfgs.push(("text,text", ta.as_bytes(), tb.as_bytes()));
+                    }
+                }
+                for (cfg, x, y) in cfgs {
+                    acc.eval();
+                    match guard(|| (jsonb::contains(x, y), jsonb::compare(x, y))) {
+                        Ok((c, Ok(o))) if c == (o == std::cmp::Ordering::Equal) => {}
+                        other => acc.vio("contains-vs-compare:scalars:equality-differs", || json!({"cfg": cfg, "a": format!("{:?}", a), "b": format!("{:?}", b), "observed (contains, compare)": format!("{:?}", other.map_err(|p| panic_class(&p)))})),
+                    }
+                }
+            }
+        }));
+    }
+    // documents holding NaN or an infinity (only writable as JSONB) against finite documents given as text
+    // and as JSONB: the tree implementation has to decode them
+    {
+        let nf = [f64::NAN, f64::INFINITY, f64::NEG_INFINITY];
+        let mut a_docs: Vec<RVal> = vec![];
+        for x in nf {
+            let n = RVal::f(x);
+            a_docs.extend([n.clone(), RVal::arr(vec![RVal::u(1), n.clone(), RVal::s("x")]), RVal::obj(vec![("a", n.clone()), ("b", RVal::u(2))]), RVal::arr(vec![RVal::arr(vec![n.clone()]), RVal::u(1)]), RVal::obj(vec![("k", RVal::arr(vec![n.clone(), RVal::u(1)]))])]);
+        }
+        let b_docs: Vec<RVal> = vec![RVal::u(1), RVal::f(1.0), RVal::s("x"), RVal::arr(vec![RVal::u(1)]), RVal::arr(vec![RVal::s("x"), RVal::u(1)]), RVal::obj(vec![("b", RVal::u(2))]), RVal::obj(vec![("a", RVal::u(1))]), RVal::arr(vec![RVal::arr(vec![])]), RVal::arr(vec![]), RVal::obj(vec![]), RVal::obj(vec![("k", RVal::arr(vec![RVal::u(1)]))]), RVal::Null];
+        let (a_docs, b_docs) = (std::sync::Arc::new(a_docs), std::sync::Arc::new(b_docs));
+        sp.push(Space::new("documents with NaN / infinities (JSONB) against finite documents as text and as JSONB, both directions", a_docs.len() as u64, move |i, acc| {
+            let a = &a_docs[i as usize];
+            let ab = enc(a);
+            for b in b_docs.iter() {
+                let (bb, bt) = (enc(b), refmodel::text::print(b));
+                for (cfg, x, y, exp) in [("binary,text", &ab[..], bt.as_bytes(), ref_contains(a, b)), ("text,binary", bt.as_bytes(), &ab[..], ref_contains(b, a)), ("binary,binary", &ab[..], &bb[..], ref_contains(a, b)), ("binary,binary (reversed)", &bb[..], &ab[..], ref_contains(b, a))] {
+                    acc.eval();
+                    acc.nontrivial += 1;
+                    match guard(|| jsonb::contains(x, y)) {
+                        Ok(o) if o == exp => {}
+                        other => acc.vio("contains:non-finite-operand:differs-from-rules", || json!({"cfg": cfg, "non-finite document": format!("{:?}", a), "finite document": format!("{:?}", b), "expected": exp, "observed": format!("{:?}", other.map_err(|p| panic_class(&p)))})),
+                    }
+                }
+            }
+        }));
+    }
     // the tree implementation (reached when an argument is JSON text) against the same rules
     let fin: std::sync::Arc<Vec<usize>> = std::sync::Arc::new((0..n).filter(|i| d.texts[*i].is_some()).step_by(if tier.thorough() { 1 } else { 2 }).collect());
     let (d3, f1) = (d.clone(), fin.clone());
